@@ -152,3 +152,84 @@ def k5_map_iterator(res, tier):
         if r.kind in ('panic', 'oob', 'unreachable', 'ub', 'diverge', 'depth'):
             res.fail(f'C11.K5:map_iterator:{r.kind}', f'map iterator: path ends in {r.kind}: {str(r.info)[:200]}', {'path': str(r.info)})
     summarize_paths(res, e, results, lambda r: r.info if isinstance(r.info, dict) else None, key_prefix='C11.K5:', unwind_ok=False)
+
+
+F73_SRC = ('let m = {};\nclass A { str() { for i in 2000.times() { m[i] = i; } return "A"; } }\nm["k1"] = A(); m["k2"] = 2; m["k3"] = 3;\nprint(m.str().len() > 0);\n')
+F73_REPLAY = dict(kind='lay', source=F73_SRC, valgrind=True, note='the str() of a value inserts into the map that is being printed: the table is reallocated under the native\'s iterator')
+
+
+@obligation('C11.K5.map_str_storage', 'C11', programs=('vm',), also=('C16', 'C05'))
+def k5_map_str(res, tier):
+    """MapStr::call from MIR with the str() callbacks as arbitrary programs (each one may insert into or remove from the map: the table
+    generation is havocked by every callback): the native never advances a hash-table iterator created before a callback"""
+    W = _world()
+    e, P = W.e, W.P
+    import re
+    from .c16natives import _call_fn
+    f = _call_fn(P, 'laythe_lib/src/global/primitives/map.rs', 'MapStr')
+    if f is None:
+        res.inconclusive('MapStr::call not located')
+        return
+    e.max_paths = 4000
+    res.bounds = {'entries in the map': '0..3', 'entries formatted after the copy': '0..1', 'callbacks': 'any program (the table generation changes with every callback)'}
+    res.assumptions = ['a str() callback may insert into / remove from the map (hashbrown may reallocate or rewrite the table)']
+    RES = P.enum_def('Result')
+
+    def callback(e_, a, c):
+        e_.path_state['epoch'] += 1
+        e_.path_state['events'].append(('hook',))
+        return EnumV('Result<Value, LyError>', 0, {'Ok': {0: Cell(e_.fresh(VALUE, e_.fresh_name('callback_value')))}}, None, RES)
+    e.model(r'^(laythe_core::)?(hooks::)?(Hooks|ValueHooks)::(call|call_method|get_method)$', callback)
+    # a list built from a slice (list!(&*entries)): a new list object; its contents do not matter here
+    def m_manage_list(e_, a, c):
+        v = a[1]
+        if isinstance(v, Struct) and 'VecBuilder' in str(getattr(v, 'ty', '')):
+            return AbsObj(z3.BitVec(e_.fresh_name('new_list'), 64), 'List')
+        return NotImplemented
+    e.model(r'^(laythe_core::)?(hooks::)?(Hooks|GcHooks)::manage_obj$', m_manage_list)
+
+    # the raw shared vector the allocation hands back: addressed by identity, its elements are a row of any values
+    from .vmabs import AbsArr
+
+    def raw_row(e_, v):
+        while isinstance(v, Ref):
+            v = v.cell.get(e_)
+        if not hasattr(v, 'id'):
+            return None
+        row = AbsArr(v.id, VALUE).seq(e_)
+        e_.add_constraint(z3.ULE(row.len, 2))
+        return row
+    e.model(r'^(laythe_core::)?(collections::)?(\w+::)*RawSharedVector::len$', lambda e_, a, c: raw_row(e_, a[0]).len if raw_row(e_, a[0]) is not None else NotImplemented)
+
+    def m_raw_deref(e_, a, c):
+        row = raw_row(e_, a[0])
+        return SliceRef(row, bv(0, 64), row.len) if row is not None else NotImplemented
+    e.model(r'^<(laythe_core::)?(collections::)?(\w+::)*RawSharedVector as (std::ops::|core::ops::)?Deref(Mut)?>::deref(_mut)?$', m_raw_deref)
+    sds = [d for d in P.items.structs.get('MapStr', []) if d.file.endswith('primitives/map.rs')]
+
+    def path(e):
+        W.W.fresh_state(e)
+        e.path_state['casts'] = []
+        e.path_state['epoch'] = 0
+        v = e.fresh(VALUE, 'receiver')
+        W.constrain(e, v, 'Map')
+        me = Struct('MapStr', None, NameBacking('native_self')) if sds and sds[0].fields else Struct('MapStr', {}, None)
+        args = ConcSeq('Value', [Cell(v)])
+        e.call(f, [Ref(Cell(me)), Ref(Cell(Opaque('Hooks', 'hooks'))), SliceRef(args, bv(0, 64), bv(1, 64))])
+        return {'fn': 'MapStr', 'callbacks': e.path_state['epoch']}
+    results = e.explore(path)
+    seen = False
+    for r in results:
+        for lab, ok, info in list(r.checks):
+            if not ok and 'table iterator' in lab:
+                if not seen:
+                    seen = True
+                    res.fail('C11.K5:MapStr advances a table iterator after a callback may have changed the map',
+                             'MapStr walks map.iter() and calls str() on every key and value inside the loop; a callback that inserts reallocates the table and the next '
+                             'advance reads freed memory', info, replay=F73_REPLAY)
+                r.checks.remove((lab, ok, info))
+        if r.kind in ('oob', 'unreachable', 'ub', 'diverge', 'depth'):
+            res.fail(f'C11.K5:map_str:{r.kind}', f'MapStr: path ends in {r.kind}: {str(r.info)[:200]}', {'path': str(r.info)})
+    summarize_paths(res, e, results, lambda r: r.info if isinstance(r.info, dict) else None, key_prefix='C11.K5:map_str:', unwind_ok=True)
+    if not any(isinstance(r.info, dict) and r.info.get('callbacks') for r in results if r.kind == 'ok') and not seen:
+        res.inconclusive('MapStr: no path with a callback was decided')
